@@ -54,6 +54,7 @@ struct Hostile {            // C19: replace the reply to the n-th client packet 
 
 struct Config {
     ref::Props connack_props;                 // capabilities etc. announced in every successful CONNACK
+    std::vector<ref::Props> connack_props_script;   // if set: properties of the n-th successful CONNACK (then connack_props)
     std::vector<int> sp_policy;               // per successful handshake index: -1/absent = natural, 0 = session lost
     uint8_t puback_rc = 0, pubrec_rc = 0, pubcomp_rc = 0;
     bool ack_props = false;                   // attach reason string + user property to acks
@@ -71,6 +72,7 @@ public:
     int handshakes_ok = 0, connects_seen = 0, subs_seen = 0, unsubs_seen = 0;
     std::vector<OutMsg> lost_out;                     // outbound messages of sessions the broker discarded (sp=0)
     std::vector<std::string> protocol_violations;   // things the client must never do (C17 wire monitor etc.)
+    bool starving_connack = false;                    // a hostile but parseable CONNACK announced Receive Maximum 0
     int next_hs_variant = HS_OK;                      // set by the explorer before delivering a CONNECT
 
     Broker(sim::Net& n, Config c) : net(n), cfg(std::move(c)) { net.broker = this; }
